@@ -19,7 +19,7 @@ LEVEL = "translation_validation"
 def gen_tasks(tier, seed):
     rng = random.Random(seed + 3)
     tasks = []
-    for name, es in I.dag_graphs(tier, rng, quick_n=8, thorough_n5=60):
+    for name, es in I.dag_graphs(tier, rng, quick_n=8, thorough_n5=400):
         G = nx.DiGraph(es)
         routes = F.dag_routes(G)
         for rep in range(1 if tier == "quick" else 2):
